@@ -169,19 +169,13 @@ class Grid(BaseGrid):
             self.H, self.hc, self.Cs_w, stagger="w", Vtransform=self.Vtransform
         )
 
-        # Land masks at u- and v-points
-        M = self.M
-        Mu = np.zeros((self.jmax, self.imax + 1), dtype=int)
-        Mu[:, 1:-1] = M[:, :-1] * M[:, 1:]
-        Mu[:, 0] = M[:, 0]
-        Mu[:, -1] = M[:, -1]
-        self.Mu = Mu
-
-        Mv = np.zeros((self.jmax + 1, self.imax), dtype=int)
-        Mv[1:-1, :] = M[:-1, :] * M[1:, :]
-        Mv[0, :] = M[0, :]
-        Mv[-1, :] = M[-1, :]
-        self.Mv = Mv
+        # Land masks at u- and v-points, a face is open if the cells on both
+        # sides are sea. The cells just outside the loaded rectangle decide
+        # for the outermost faces (1 <= i0, i1 <= imax0 - 1, so they exist)
+        Mx = ncid.variables["mask_rho"][self.J, self.i0 - 1 : self.i1 + 1].astype(int)
+        self.Mu = Mx[:, :-1] * Mx[:, 1:]
+        My = ncid.variables["mask_rho"][self.j0 - 1 : self.j1 + 1, self.I].astype(int)
+        self.Mv = My[:-1, :] * My[1:, :]
 
         # Close the file(s)
         ncid.close()
